@@ -6,3 +6,5 @@ pub mod control_points;
 pub mod utf8;
 pub mod curve;
 pub mod framing;
+pub mod numbers;
+pub mod timing;
